@@ -6,7 +6,7 @@ import time
 
 sys.path.insert(0, os.path.dirname(os.path.dirname(os.path.abspath(__file__))))
 import z3
-from pyvc.driver import run
+from pyvc.driver import run, pmap
 
 MAX = 4294967295
 
@@ -304,10 +304,52 @@ def bounded(chk):
                     viol, time.time() - t0, samples, exhaustive=True)
 
 
+def check_edge(arg):
+    """containers the numbering rule does not mention: a group without entries inside an ACL, an explicitly empty list of items"""
+    import cisco_acl
+    kind, platform = arg
+    head = "ip access-list extended A" if platform == "ios" else "ip access-list A"
+    fails = []
+
+    def bad(what):
+        fails.append(dict(key=f"bounded/Acl.resequence:{kind}", what=what, inputs=dict(kind=kind, platform=platform),
+                          cmd=("import sys; sys.path.insert(0, 'props'); import C10\n"
+                               f"fails, _ = C10.check_edge({arg!r})\nprint([f['what'] for f in fails]); sys.exit(1 if fails else 0)\n")))
+    acl = cisco_acl.Acl(head + "\n permit ip any any\n deny ip any any", platform=platform)
+    try:
+        if kind == "empty-group":
+            acl.items.insert(1, cisco_acl.AceGroup("", platform=platform))
+            last = acl.resequence(10, 10)
+            nums = [o.sequence for o in acl.items if not isinstance(o, cisco_acl.AceGroup)]
+            if nums != sorted(nums) or len(set(nums)) != len(nums) or nums[0] != 10 or last < nums[-1]:
+                bad(f"entries around an empty group are numbered {nums}, returned {last}")
+        else:
+            last = acl.resequence(10, 10)
+            last2 = acl.resequence(500, 5, items=[])
+            nums = [o.sequence for o in acl.items]
+            if nums != [10, 20]:
+                bad(f"resequence(500, 5, items=[]) renumbered the entries of the ACL: {nums} (returned {last2})")
+    except (ValueError, TypeError):
+        pass
+    except Exception as ex:
+        bad(f"{type(ex).__name__}: {str(ex)[:80]}")
+    return fails, 1
+
+
 def main(chk):
     chk.prove(["c_sequence"])
     chk.lemmas(lemmas())
     bounded(chk)
+    t0 = time.time()
+    ecases = [(k, p) for k in ("empty-group", "explicit-empty-items") for p in ("ios", "nxos")]
+    res = pmap(check_edge, ecases)
+    viol = 0
+    for fails, _ in res:
+        for f in fails:
+            viol += 1
+            chk.finding(f["key"], f["what"], inputs=f["inputs"], cmd=f["cmd"], key=f["key"])
+    chk.add_bounded("containers outside the contract's precondition (`tree of non-empty groups`): an empty nested group, an explicitly empty items list", len(ecases), len(ecases),
+                    "2 shapes x 2 platforms", viol, time.time() - t0, [list(ecases[0])], exhaustive=True)
     chk.assumptions += [
         "Python ints are mathematical integers (z3 Int); left-to-right evaluation; enumerate/len/isinstance/dict/kwargs.get built-in models (pyvc.builtins_)",
         "AceGroup.resequence precondition `tree`: the item graph is a finite tree of non-empty groups with pairwise distinct nodes (ghost functions FN/LN/UG/IDXL); the bounded run shows a model of these axioms exists for every enumerated tree",
